@@ -23,6 +23,12 @@ type Obl struct {
 	Extra   []string // additional assertions (use-instances) for this obligation only
 	Replay  map[string]string
 	SrcLine string
+	Subs    []SubGoal // per-return sub-goals of a postcondition (all must be discharged)
+}
+
+type SubGoal struct {
+	Path, Cond T
+	Extra []string
 }
 
 type Enc struct {
@@ -191,7 +197,6 @@ const prelude = `(declare-sort Str 0)
 (declare-fun bitxor (Int Int) Int)
 (declare-fun shl (Int Int) Int)
 (declare-fun shr (Int Int) Int)
-(declare-fun mcard_Str ((Array Str Bool)) Int)
 `
 
 func (e *Enc) cone(goal string, extra []string) (decls []string, asserts []string, used map[string]bool) {
